@@ -2,10 +2,10 @@
 """run /repo's test suite (guard off) with xdist and compare against /root/.vp/BASELINE.json stable_pass"""
 import json, subprocess, sys, os, xml.etree.ElementTree as ET, tempfile
 out = sys.argv[1] if len(sys.argv) > 1 else "/tmp/baseline.junit.xml"
-n = sys.argv[2] if len(sys.argv) > 2 else "8"
+n = None
 env = dict(os.environ); env.pop("BUIDL_PYTHON_VERIF", None)
 subprocess.run(["/venv/bin/python", "-m", "pytest", "-q", "-p", "no:cacheprovider", "--timeout=900", "--continue-on-collection-errors",
-                "-n", n, f"--junitxml={out}"], cwd="/repo", env=env, stdout=subprocess.DEVNULL, stderr=subprocess.DEVNULL)
+                f"--junitxml={out}"], cwd="/repo", env=env, stdout=subprocess.DEVNULL, stderr=subprocess.DEVNULL)
 base = json.load(open("/root/.vp/BASELINE.json"))
 passed = set()
 for tc in ET.parse(out).getroot().iter("testcase"):
